@@ -2,6 +2,7 @@
 import concurrent.futures
 import copy
 import json
+import re
 import os
 import random
 import time
@@ -156,8 +157,18 @@ def run(pid, tier, seed):
             futs.append((module, cfg, expect_ok, ex.submit(vk.model_check, p.family, module, cfg, tmo, nw, expect_ok)))
         # 2. the real code
         out = os.path.join(wd, "trace.ndjson")
-        hp = vk.run_harness(binary, [p.driver, "-tier", tier, "-seed", str(seed), "-out", out], timeout=p.harness_timeout)
-        summary = _parse_summary(hp.stdout)
+        try:
+            hp = vk.run_harness(binary, [p.driver, "-tier", tier, "-seed", str(seed), "-out", out], timeout=p.harness_timeout)
+            summary = _parse_summary(hp.stdout)
+        except vk.HarnessCrash as hc:
+            # the code under test killed the driver's process (a fatal error cannot be recovered): the case that
+            # was running is the observation; nothing else of this run can be judged
+            cur = hc.current or {}
+            sig = dict(cur.get("sig") or {})
+            sig.update({"oracle": "crash", "frame": re.sub(r"[0-9]+", "#", hc.frame)})
+            summary = {"cases": cur.get("case", 0), "events": 0, "nontrivial": 0, "samples": [], "extra": {"aborted": True},
+                       "direct": [{"sig": sig, "input": cur.get("input"), "driver": p.driver,
+                                   "what": "the code under test took the driver process down: %s @ %s" % (hc.head, hc.frame)}]}
         states = transitions = 0
         mcinfo = []
         for (module, cfg, expect_ok, f) in futs:
